@@ -970,12 +970,14 @@ class _Sym(Flow):
                 out.append((('list', kept), s))
         return out
 
-    def inline(self, c, callee, a, kw, st):
+    def inline(self, c, callee, a, kw, st, recv=None):
         args = callee.node.args
         names = [x.arg for x in args.posonlyargs + args.args]
-        if callee.cls is not None and names and names[0] in ('self', 'cls') and not callee.is_staticmethod():
-            names = names[1:]
         env = dict(st[0]) if callee.parent is self.f else {}
+        if callee.cls is not None and names and names[0] in ('self', 'cls') and not callee.is_staticmethod():
+            if recv is not None:
+                env[names[0]] = recv  # a method of the receiver's own class: the callee sees the same object
+            names = names[1:]
         defaults = args.defaults
         allnames = [x.arg for x in args.posonlyargs + args.args]
         for i, n in enumerate(names):
@@ -1413,9 +1415,12 @@ def _organize_rule(ctx, rep, r):
                 return 'BAD'
             return next(iter(got))
         if isinstance(e, ast.IfExp):
-            # X if X else <empty>
-            if norm(e.test) == norm(e.body) and _is_empty_coll(e.orelse):
-                return cls(e.body, seen)
+            # "X, or an empty collection when X holds nothing": X if X else <empty>, <empty> if not X else X, X if X is not None
+            # else <empty>, X if len(X) > 0 else <empty>, ... -- decided by evaluating the test in the three worlds of X
+            for x in (e.body, e.orelse):
+                if _is_empty_coll(x) or not _defaults_to_empty(e, norm(x)):
+                    continue
+                return cls(x, seen)
             return 'BAD'
         if isinstance(e, ast.BoolOp) and isinstance(e.op, ast.Or) and len(e.values) == 2 and _is_empty_coll(e.values[1]):
             return cls(e.values[0], seen)
@@ -1610,6 +1615,72 @@ def _pipeline_op(f, op):
 
     v = ast.fix_missing_locations(ast.copy_location(sub(op.args[0]), op.args[0]))
     return wsa.Op(op.func, op.node, op.kind, op.op, [v], op.owner)
+
+
+_MIRROR = {ast.Lt: ast.Gt, ast.Gt: ast.Lt, ast.LtE: ast.GtE, ast.GtE: ast.LtE, ast.Eq: ast.Eq, ast.NotEq: ast.NotEq, ast.Is: ast.Is, ast.IsNot: ast.IsNot}
+_CMP = {
+    ast.Lt: lambda a, b: a < b,
+    ast.Gt: lambda a, b: a > b,
+    ast.LtE: lambda a, b: a <= b,
+    ast.GtE: lambda a, b: a >= b,
+    ast.Eq: lambda a, b: a == b,
+    ast.NotEq: lambda a, b: a != b,
+}
+
+
+def _truth_about(test, xtext, world):
+    """truth (True / False / None = not known) of `test` when the expression written `xtext` is None ('none'), an empty
+    collection ('empty') or a collection with elements ('full').  Understood: the expression itself, not / and / or,
+    comparison with None and of len(<it>) with an integer in either orientation, constants."""
+    if isinstance(test, ast.UnaryOp) and isinstance(test.op, ast.Not):
+        r = _truth_about(test.operand, xtext, world)
+        return None if r is None else not r
+    if isinstance(test, ast.BoolOp):
+        rs = [_truth_about(v, xtext, world) for v in test.values]
+        if isinstance(test.op, ast.And):
+            return False if any(r is False for r in rs) else (True if all(r is True for r in rs) else None)
+        return True if any(r is True for r in rs) else (False if all(r is False for r in rs) else None)
+    if isinstance(test, ast.Constant):
+        return bool(test.value)
+    if norm(test) == xtext:
+        return world == 'full'
+    if isinstance(test, ast.Call) and isinstance(test.func, ast.Name) and test.func.id == 'bool' and len(test.args) == 1 and not test.keywords:
+        return _truth_about(test.args[0], xtext, world)
+    if isinstance(test, ast.Compare) and len(test.ops) == 1:
+        a, b, op = test.left, test.comparators[0], type(test.ops[0])
+        if op not in _MIRROR:
+            return None
+        if isinstance(a, ast.Constant) and not isinstance(b, ast.Constant):
+            a, b, op = b, a, _MIRROR[op]  # mirrored form: the constant is written first
+        if not isinstance(b, ast.Constant):
+            return None
+        if norm(a) == xtext and b.value is None and op in (ast.Is, ast.IsNot, ast.Eq, ast.NotEq):
+            r = world == 'none'
+            return r if op in (ast.Is, ast.Eq) else not r
+        if isinstance(a, ast.Call) and isinstance(a.func, ast.Name) and a.func.id == 'len' and len(a.args) == 1 and norm(a.args[0]) == xtext and type(b.value) is int and op in _CMP:
+            if world == 'none':
+                return None  # len(None) raises: no such path
+            if world == 'empty':
+                return _CMP[op](0, b.value)
+            # any length >= 1: a comparison with n can only change its value at n-1, n, n+1
+            got = {_CMP[op](k, b.value) for k in (1, b.value - 1, b.value, b.value + 1, 1 << 62) if k >= 1}
+            return got.pop() if len(got) == 1 else None
+    return None
+
+
+def _defaults_to_empty(e, xtext):
+    """the conditional expression `e` yields the expression written `xtext`, except that it may yield an empty collection
+    instead when that expression is None or empty"""
+    for world in ('none', 'empty', 'full'):
+        tv = _truth_about(e.test, xtext, world)
+        arms = ([e.body] if tv is not False else []) + ([e.orelse] if tv is not True else [])
+        for arm in arms:
+            if norm(arm) == xtext:
+                continue
+            if _is_empty_coll(arm) and world != 'full':
+                continue
+            return False
+    return True
 
 
 def _is_empty_coll(e):
@@ -2103,6 +2174,93 @@ def _chain_roles(ch, fields):
     return out
 
 
+OWN_TARGET = ('mcall', ('p', 'self'), '_tn', ())  # the value of self._tn(): the dataset's own target name
+
+
+class _UseModel(_Model):
+    """every call whose effect is not interpreted is an observable *use* of its argument values (event in the trace, result
+    value built from the arguments); self._tn() is the dataset's own target name, a non-empty string; methods of the
+    receiver's own class and functions of the same module are interpreted in line while the depth allows"""
+
+    def truthy(self, val):
+        return True if val == OWN_TARGET else None
+
+    def eq(self, a, b):
+        if a == OWN_TARGET and b == ('const', None):
+            return False
+        return None
+
+    @staticmethod
+    def _use(it, node, what, recv, a, kw, st):
+        ev = ('use', what, recv, tuple(a), tuple(sorted(kw.items())))
+        return [(('res',) + ev[1:], it.emit(st, ev))]
+
+    @staticmethod
+    def _logging(text):
+        return any(p in ('log', '_log', 'LOG', 'logging', 'logger') for p in text.split('.'))
+
+    def method(self, it, node, recv, name, a, kw, st):
+        if recv[0] in ('const', 'str', 'obj', 'list', 'mlist', 'joined', 'concat'):
+            return NotImplemented
+        if self._logging(norm(node.func)):
+            return [(('opaque', 'logging'), st)]
+        if recv == ('p', 'self'):
+            if name == '_tn' and not a and not kw:
+                return [(OWN_TARGET, st)]
+            sym = _callee(it.prog, node, it.f)
+            callee = it.prog.func_of(sym) if sym and not sym.startswith(('local:', 'external:')) else None
+            if callee is not None and callee.cls is not None and it.depth < it.MAXDEPTH and it._may_inline(callee):
+                return it.inline(node, callee, a, kw, st, recv=recv)
+        return self._use(it, node, name, recv, a, kw, st)
+
+    def call(self, it, node, sym, a, kw, st):
+        if sym is None:
+            return self._use(it, node, norm(node.func), None, a, kw, st)
+        if self._logging(sym):
+            return NotImplemented
+        callee = it.prog.func_of(sym) if not sym.startswith(('local:', 'external:')) else None
+        if callee is not None and it.depth < it.MAXDEPTH and it._may_inline(callee):
+            return NotImplemented  # interpreted in line by the caller
+        return self._use(it, node, sym, None, a, kw, st)
+
+
+def _defaults_to_own_target(prog, fn, pname):
+    """is calling method `fn` with parameter `pname` omitted the same as calling it with self._tn()?
+
+    Decided by interpreting `fn` twice over symbolic values -- once with the parameter bound to its declared default, once
+    bound to the value of self._tn() -- and comparing the outcomes (the uses of values in calls, in order, and the value
+    returned) path by path.  How the default is written (conditional expression in either orientation, `or`, an if
+    statement, `is None` test, a helper of the same class) does not matter."""
+    a = fn.node.args
+    names = [x.arg for x in a.posonlyargs + a.args]
+    dflt = dict(zip(names[len(names) - len(a.defaults):], a.defaults)) if a.defaults else {}
+    dflt.update({x.arg: d for x, d in zip(a.kwonlyargs, a.kw_defaults) if d is not None})
+    d = dflt.get(pname)
+    if not isinstance(d, ast.Constant):
+        return False, f'{fn.name} declares no constant default for {pname}'
+    if fn.cls is None or fn.is_staticmethod() or not names:
+        return False, f'{fn.name} is not an instance method'
+    outcomes = []
+    for val in (('const', d.value), OWN_TARGET):
+        env = {n: ('p', n) for n in names[1:] + [x.arg for x in a.kwonlyargs]}
+        env[names[0]] = ('p', 'self')
+        env[pname] = val
+        out, _sh, _it = _run(prog, fn, _UseModel(), env)
+        res = set()
+        for kind, sts in (('normal', out.normal), ('ret', out.ret), ('exc', out.exc)):
+            for st in sts:
+                res.add((kind, _eget(st[0], '$ret') if kind == 'ret' else None, st[2], st[1]))
+        outcomes.append(res)
+    if not outcomes[0]:
+        return False, f'no path through {fn.name} understood'
+    if outcomes[0] == outcomes[1]:
+        return True, ''
+    only = sorted(outcomes[0] - outcomes[1], key=repr) or sorted(outcomes[1] - outcomes[0], key=repr)
+    uses = [ev for ev in only[0][2] if ev[0] == 'use']
+    shown = repr(uses[0][1:4])[:120] if uses else repr(only[0][1])[:120]
+    return False, f'with {pname} omitted {fn.name} behaves differently from {pname}=self._tn(), e.g. {shown}'
+
+
 def _rule4(ctx, rep, ranges):
     prog = ctx.prog
     with rep.rule(
@@ -2159,8 +2317,8 @@ def _rule4(ctx, rep, ranges):
                     i = ps.index('tn') - (0 if kf.is_staticmethod() else 1)
                     tn_arg = arg(k, i, 'tn')
                     if tn_arg is None:
-                        dflt_ok = any(isinstance(n, ast.Assign) and norm(n.value).replace(' ', '') in ('tniftnelseself._tn()', 'tnorself._tn()') for n in kf.own_nodes())
-                        r.check(dflt_ok, kkey, where(lf, k), f'{kf.name} defaults to self._tn()', f'{norm(k)[:80]}: the target of the database key does not default to self._tn()', nontrivial=False)
+                        dflt_ok, why = _defaults_to_own_target(prog, kf, 'tn')
+                        r.check(dflt_ok, kkey, where(lf, k), f'{kf.name} defaults to self._tn()', f'{norm(k)[:80]}: the target of the database key does not default to self._tn() ({why})', nontrivial=False)
                     else:
                         t = norm(ch.subst(tn_arg, lvl))
                         r.check(t == 'self._tn()', kkey, where(lf, k), 'database key uses self._tn()', f'{norm(k)[:80]}: the database key is built for target {t} while the report must name the same target')
@@ -2533,6 +2691,7 @@ _U = (_S, 'update')
 _O = (_S, 'organize')
 _RF = 'util/refs.py'
 _SM = 'db/shelve/model.py'
+_PI = 'db/post/__init__.py'
 # the todo extension of organize's node loop and the rest of the function up to the next definition (one contiguous text, so
 # that a variant can move the former into a module level helper placed after organize)
 _ORG_IF = "                if _is_asp(n):\n                    n.get('todo').add('__all__')\n                elif '__all__' in targets:\n                    n.get('todo').update(dawgie.db.targets())\n                else:\n                    n.get('todo').update(targets)\n"
@@ -2617,6 +2776,23 @@ VARIANTS = [
     V('as_vref with an explicit inner loop', 'N', _RF, 'as_vref', '            yield from svref2vref(reference)', 'for v in svref2vref(reference):\n                yield v', None),
     V('report extracted into a same-class helper', 'N', _SM, 'Interface', '''self._bot().new_values(\n                        (\n                            '.'.join(\n                                [str(runid), tn, task, alg.name(), sv.name(), k]\n                            ),\n                            isnew,\n                        )\n                    )\n                    pass\n                pass\n        finally:\n            self._log.debug("update: Releaseing for %s", name)\n            comms.release(lok)\n            pass\n        return\n\n    def _update_msv(self, msv):''', '''self.__report(alg, sv, k, isnew)\n                    pass\n                pass\n        finally:\n            self._log.debug("update: Releaseing for %s", name)\n            comms.release(lok)\n            pass\n        return\n\n    def __report(self, alg, sv, vn, isnew):\n        name = '.'.join([str(self._runid()), self._tn(), self._task(), alg.name(), sv.name(), vn])\n        self._bot().new_values((name, isnew))\n        return\n\n    def _update_msv(self, msv):''', None),
     V('shelve writer as f-string', 'N', _SM, 'Interface._update', "'.'.join(\n                                [str(runid), tn, task, alg.name(), sv.name(), k]\n                            )", "f'{runid!s}.{tn}.{task}.{alg.name()}.{sv.name()}.{k}'", None),
+    # equivalent spellings of conditions (negated test with swapped arms, mirrored / None comparisons, if statements)
+    V('organize: targets default, arms swapped', 'N', *_O, 'targets = targets if targets else set()', 'targets = set() if not targets else targets', None),
+    V('organize: targets default by None test', 'N', *_O, 'targets = targets if targets else set()', 'targets = set() if targets is None else targets', None),
+    V('organize: targets default by mirrored length test', 'N', *_O, 'targets = targets if targets else set()', 'targets = targets if 0 < len(targets) else []', None),
+    V('organize: marker test negated, arms swapped', 'N', *_O, "                elif '__all__' in targets:\n                    n.get('todo').update(dawgie.db.targets())\n                else:\n                    n.get('todo').update(targets)\n", "elif '__all__' not in targets:\n                    n.get('todo').update(targets)\n                else:\n                    n.get('todo').update(dawgie.db.targets())\n", None),
+    V('organize: else arm first', 'N', *_O, _ORG_IF, "if not _is_asp(n) and not ('__all__' in targets):\n                    n.get('todo').update(targets)\n                elif _is_asp(n):\n                    n.get('todo').add('__all__')\n                else:\n                    n.get('todo').update(dawgie.db.targets())\n", None),
+    V('organize: requested targets dropped when given', 'B', *_O, 'targets = targets if targets else set()', 'targets = set() if targets else targets', 'R-C02-2'),
+    V('organize: requested targets emptied unless one', 'B', *_O, 'targets = targets if targets else set()', 'targets = targets if len(targets) == 1 else set()', 'R-C02-2'),
+    V('post key default, arms swapped', 'N', _PI, 'Interface.__tn_id', 'tn = tn if tn else self._tn()', 'tn = self._tn() if not tn else tn', None),
+    V('post key default with or', 'N', _PI, 'Interface.__tn_id', 'tn = tn if tn else self._tn()', 'tn = tn or self._tn()', None),
+    V('post key default by if statement', 'N', _PI, 'Interface.__tn_id', 'tn = tn if tn else self._tn()', "if None is tn:\n            log.debug('own target')\n            tn = self._tn()", None),
+    V('post key default held in another local', 'N', _PI, 'Interface.__tn_id', "tn = tn if tn else self._tn()\n        # Get target id that matches target name or create it if not there\n        _insert(\n            'INSERT INTO Target (name) VALUES (%s) ON CONFLICT (name) DO NOTHING;',\n            [tn],\n        )\n        cur.execute('SELECT * from Target WHERE name = %s;', [tn])\n        tn_ID = _fetchone(cur, f'Dataset: Could not find target ID for \"{tn}\"')", "name = self._tn() if tn is None else tn\n        _insert(\n            'INSERT INTO Target (name) VALUES (%s) ON CONFLICT (name) DO NOTHING;',\n            [name],\n        )\n        cur.execute('SELECT * from Target WHERE name = %s;', [name])\n        tn_ID = _fetchone(cur, f'Dataset: Could not find target ID for \"{name}\"')", None),
+    V('post key default through a same-class helper', 'N', _PI, 'Interface', 'def __tn_id(self, cur, tn=None):\n        tn = tn if tn else self._tn()', 'def _own(self, tn):\n        return tn if tn else self._tn()\n\n    def __tn_id(self, cur, tn=None):\n        tn = self._own(tn)', None),
+    V('post key defaults to the bot target', 'B', _PI, 'Interface.__tn_id', 'tn = tn if tn else self._tn()', 'tn = tn if tn else self._bot()._target()', 'R-C02-4'),
+    V('post key default inverted', 'B', _PI, 'Interface.__tn_id', 'tn = tn if tn else self._tn()', 'tn = self._tn() if tn else tn', 'R-C02-4'),
+    V('post key default dropped', 'B', _PI, 'Interface.__tn_id', 'tn = tn if tn else self._tn()', 'pass', 'R-C02-4'),
+    V('post key default only in the insert', 'B', _PI, 'Interface.__tn_id', "tn = tn if tn else self._tn()\n        # Get target id that matches target name or create it if not there\n        _insert(\n            'INSERT INTO Target (name) VALUES (%s) ON CONFLICT (name) DO NOTHING;',\n            [tn],\n        )", "_insert(\n            'INSERT INTO Target (name) VALUES (%s) ON CONFLICT (name) DO NOTHING;',\n            [tn or self._tn()],\n        )", 'R-C02-4'),
     V('success tested on the reply field', 'N', 'pl/farm.py', 'Hand._res', 'if state == dawgie.pl.schedule.State.success:', 'if msg.success:', None),
     V('reply application extracted into a local helper', 'N', 'pl/farm.py', 'Hand._res',
       _COMPLETE + '\n            if state == dawgie.pl.schedule.State.success:\n                dawgie.pl.farm.ARCHIVE |= any(msg.values)\n                dawgie.pl.schedule.update(msg.values, job, msg.runid)\n            else:\n                dawgie.pl.schedule.purge(job, inc)',
